@@ -40,3 +40,12 @@ Proof. vm_compute. repeat split; reflexivity. Qed.
 Theorem C16_lock_discipline : Gen.lock_discipline_peering = true.
 Proof. repeat split; reflexivity. Qed.
 Print Assumptions C16_lock_discipline.
+
+(* Two links with one peer can be set up at the same time (simultaneous connect in both directions);
+   both handshakes work on the router's one session for that peer.  Every method of the encryption
+   session they call — the key exchange steps, the derivation of the link keys and the clean-up of
+   the exchange keys (InitCleanup: defect fixed by 628f0f1, it wrote without the lock) — is one
+   critical section under the session's lock: 22 methods of package state, recomputed on every run. *)
+Theorem C16_sessions_of_concurrent_setups_locked : Gen.lock_discipline_state = true.
+Proof. repeat split; reflexivity. Qed.
+Print Assumptions C16_sessions_of_concurrent_setups_locked.
